@@ -50,8 +50,8 @@ Clause(m, row) == row.key = m.name /\ ValClause(m, row.val)
 
 RECURSIVE Pow2(_)
 Pow2(n) == IF n = 0 THEN 1 ELSE 2 * Pow2(n - 1)
-(* bitShiftLeft(UInt8, k): the result type is UInt8, a shift by 8 or more gives 0                              *)
-Shl8(b, k) == IF k >= 8 THEN 0 ELSE b * Pow2(k)
+(* bitShiftLeft(toUInt64(clause), k): the result type is UInt64, a shift by 64 or more gives 0                  *)
+Shl8(b, k) == IF k >= 64 THEN 0 ELSE b * Pow2(k)
 RECURSIVE RowBits(_, _, _)
 RowBits(ms, row, i) == IF i > Len(ms) THEN 0
                        ELSE Shl8(IF Clause(ms[i], row) THEN 1 ELSE 0, i - 1) + RowBits(ms, row, i + 1)
